@@ -49,6 +49,27 @@ def _macro_body(src, name):
     return src[m.end():i - 1]
 
 
+def _round_constant(src, tok):
+    """the additive constant of a `round!` arm: a hex literal, or the name of the UNIQUE item `const NAME: u32 = <literal>;`
+    of ripemd160.rs (items are not hygienic: the name resolves where the macro is invoked, i.e. in this file; a second
+    definition of the name anywhere in the file -- a shadowing `const`/`static`/`let` in a nested scope -- is refused)"""
+    if tok.startswith("0x"):
+        return int(tok.replace("_", ""), 16)
+    defs = re.findall(r"\b(?:const|static|let)\s+(?:mut\s+)?" + tok + r"\b\s*(?::\s*(\w+))?\s*=\s*([^;]*);", src)
+    if len(defs) != 1:
+        raise ExtractError(f"round! constant {tok}: expected exactly one definition in {RIPEMD}, found {len(defs)}")
+    if not re.search(r"\bconst\s+" + tok + r"\s*:\s*u32\s*=", src):
+        raise ExtractError(f"round! constant {tok} is not a `const {tok}: u32` item")
+    val = re.fullmatch(r"\s*(0x[0-9a-fA-F_]+|[0-9][0-9_]*)(?:u32)?\s*", defs[0][1])
+    if not val:
+        raise ExtractError(f"round! constant {tok}: initialiser {defs[0][1].strip()!r} is not an integer literal")
+    lit = val.group(1).replace("_", "")
+    v = int(lit, 16) if lit.startswith("0x") else int(lit)
+    if v >= 1 << 32:
+        raise ExtractError(f"round! constant {tok} out of u32 range")
+    return v
+
+
 def _parse_macro(src):
     """returns {label: (side, add, fn)} and checks the shape of the pattern and of `round!`"""
     body = _macro_body(src, "process_block")
@@ -62,7 +83,7 @@ def _parse_macro(src):
     by_first = {v[0]: k for k, v in pat.items()}
     arms = {}
     for m in re.finditer(r"\$\(\s*round!\(\s*(\w+)\[\$(\w+)\],\s*(\w+)\[\$(\w+)\],\s*(\w+)\[\$(\w+)\],\s*(\w+)\[\$(\w+)\],"
-                         r"\s*(\w+)\[\$(\w+)\],\s*\$data\[\$(\w+)\],\s*\$(\w+),\s*(0x[0-9a-fA-F]+),\s*(.*?)\);\s*\)\*",
+                         r"\s*(\w+)\[\$(\w+)\],\s*\$data\[\$(\w+)\],\s*\$(\w+),\s*(0x[0-9a-fA-F_]+|[A-Z][A-Z0-9_]*),\s*(.*?)\);\s*\)\*",
                          body, re.S):
         g = m.groups()
         bufs, regs = g[0:10:2], g[1:10:2]
@@ -78,7 +99,7 @@ def _parse_macro(src):
             raise ExtractError(f"unknown boolean function in round! arm {label}: {expr}")
         if label in arms:
             raise ExtractError(f"group {label} expanded twice")
-        arms[label] = ("L" if bufs[0] == "bb" else "R", int(g[12], 16), FN_SHAPES[expr])
+        arms[label] = ("L" if bufs[0] == "bb" else "R", _round_constant(src, g[12]), FN_SHAPES[expr])
     if sorted(arms) != sorted(pat):
         raise ExtractError(f"groups without a round! arm: {sorted(set(pat) - set(arms))}")
     # the order in which the arms are expanded is the order of execution
